@@ -16,6 +16,7 @@ DSm == Decl("s", "account", "plain", NoExpr, "", NoVal)
 DSw == Decl("s", "account", "plain", NoExpr, "", VStr("not an address!"))
 DAm == Decl("amt", "monetary", "plain", NoExpr, "", VMon(3))
 DN  == Decl("n", "number", "plain", NoExpr, "", VNum(2))
+DAs == Decl("as", "asset", "plain", NoExpr, "", VAsset("USD"))
 DP  == Decl("p", "account", "meta", M, "payer", NoVal)
 DPx == Decl("p", "account", "meta", M, "missing", NoVal)
 DPt == Decl("p", "monetary", "meta", M, "payer", NoVal)
@@ -28,15 +29,19 @@ DBb == Decl("balb", "monetary", "balance", B, "", NoVal)
 DBn == Decl("bal", "number", "balance", A, "", NoVal)
 DBs == Decl("bal", "monetary", "balance", Var("s"), "", NoVal)
 
-DeclSets == {<<>>, <<DS>>, <<DSm>>, <<DSw>>, <<DAm>>, <<DS, DAm>>, <<DAm, DN>>, <<DP>>, <<DPx>>, <<DPt>>, <<DS, DPv>>, <<DAm, DPe>>, <<DPv, DS>>,
+DeclSets == {<<>>, <<DAs>>, <<DAs, DN>>, <<DS>>, <<DSm>>, <<DSw>>, <<DAm>>, <<DS, DAm>>, <<DAm, DN>>, <<DP>>, <<DPx>>, <<DPt>>, <<DS, DPv>>, <<DAm, DPe>>, <<DPv, DS>>,
              <<DF, DAm>>, <<DB>>, <<DB, DF>>, <<DB, DB2>>, <<DBb, DAm>>, <<DBn>>, <<DS, DBs>>, <<DS, DS>>}
 
 Amts == {Lit(VMon(3)), Lit(VMon(0)), Var("amt"), Var("bal"), Var("balb"), Add(Var("amt"), Lit(VMon(1))), Sub(Var("amt"), Lit(VMon(5))),
          Sub(Var("bal"), Var("fee")), Add(Lit(VMon(1)), Lit(VMonIn("EUR", 1))), Add(Var("n"), Lit(VMon(1))), Var("nope"), Lit(VNum(3)),
-         Sub(Add(Lit(VMon(7)), Var("amt")), Var("amt")), Sub(Lit(VMon(7)), Var("amt")), Sub(Lit(VMon(7)), Lit(VMon(2)))}
+         Sub(Add(Lit(VMon(7)), Var("amt")), Var("amt")), Sub(Lit(VMon(7)), Var("amt")), Sub(Lit(VMon(7)), Lit(VMon(2))),
+         \* the asset position of a literal: an asset, an asset variable, number arithmetic, a number variable
+         MonLit(Lit(VAsset("USD")), 3), MonLit(Var("as"), 3), MonLit(Add(Lit(VNum(1)), Lit(VNum(2))), 10), MonLit(Var("n"), 10)}
 Srcs == {A, B, W, Var("s"), Var("p"), Var("amt")}
 Vals == {Lit(VStr("hello")), Lit(VNum(42)), Lit(VMon(9)), Lit(VAcct("a")), Lit(VAsset("USD")), Lit(VPor("1/2")), Var("s"), Var("amt"), Var("n"),
-         Add(Var("n"), Lit(VNum(1))), Sub(Var("n"), Lit(VNum(5))), Add(Lit(VNum(1)), Lit(VStr("s"))), Add(Lit(VNum(1)), Lit(VMon(2))), Var("bal"), Var("nope")}
+         Add(Var("n"), Lit(VNum(1))), Sub(Var("n"), Lit(VNum(5))), Add(Lit(VNum(1)), Lit(VStr("s"))), Add(Lit(VNum(1)), Lit(VMon(2))), Var("bal"), Var("nope"),
+         \* monetary values that are not amounts one could send: below zero, zero
+         Sub(Lit(VMon(1)), Lit(VMon(5))), Sub(Var("amt"), Var("amt")), MonLit(Add(Lit(VNum(1)), Lit(VNum(2))), 10), MonLit(Var("as"), 0)}
 
 Sends == {SSend(m, s, od, X) : m \in Amts, s \in Srcs, od \in {-1}} \cup {SSend(Var("amt"), s, od, X) : s \in {A, Var("s")}, od \in {2, -2}}
          \cup {SSendAll(s, X) : s \in {A, W, Var("s"), Var("p")}} \cup {SSend(Lit(VMon(3)), A, -1, d) : d \in {Var("s"), Var("amt"), B}}
